@@ -126,6 +126,24 @@ def histories(ctx, model_ok, tmp, mode, trust=False):
                     viol(f"ingest({how}) of a batch naming the stored dataset {d_old} again was accepted", f"reingest-accepted:{ops}", {"kind": "art-history", "ops": ops})
                     break
                 line = None
+            elif stored_now and not trust and 0.07 <= r2 < 0.11:
+                # storing again under the resolved ref of a dataset that is still stored (a retried task writing its predefined
+                # output once more): must be refused, and the stored artifact must stay what and where it is
+                cands = [i for i in stored_now if kind_of[i] in ("plain", "zip")]
+                if not cands:
+                    continue
+                d_old = rng.choice(cands)
+                try:
+                    b.put({"n": -d_old}, refs[d_old])
+                    refused = False
+                except Exception:
+                    refused = True
+                ops.append(f"re-put stored={d_old}")
+                ctx.count("re-put:" + ("refused" if refused else "accepted"))
+                if not refused:
+                    viol(f"put under the resolved ref of the stored dataset {d_old} was accepted", f"reput-accepted:{ops}", {"kind": "art-history", "ops": ops})
+                    break
+                line = None
             elif trust and r2 < 0.17:
                 # a dataset the registry knows and the datastore has no records for
                 nid += 1
@@ -231,9 +249,22 @@ def histories(ctx, model_ok, tmp, mode, trust=False):
                     src.registry.registerRun(run)
                 rr = [src.put({"n": i}, dt, instrument="I", detector=i, run=run) for i in ids]
                 z = src.retrieve_artifacts_zip(rr, ext)
-                b.ingest_zip(z, transfer="copy")
-                os.remove(z.ospath)
-                p = os.path.relpath(b.getURI(rr[0]).ospath, absroot)
+                if not trust and rng.random() < 0.45:
+                    # the zip is put below the root by the user, under a directory name of their choosing ('_', '#', blanks
+                    # are all legal in file names), and ingested where it is: from then on it is an artifact like any other
+                    import shutil as _sh
+
+                    dname = rng.choice(["my_zips", "night#2", "a b", "x_y#z_1", "plain"])  # no "%": lsst.resources re-interprets it (outside daf_butler)
+                    in_store = os.path.join(root, dname, f"bundle_{ids[0]}.zip")
+                    os.makedirs(os.path.dirname(in_store), exist_ok=True)
+                    _sh.move(z.ospath, in_store)
+                    b.ingest_zip(in_store, transfer=None)
+                    p = os.path.relpath(in_store, absroot)
+                    ctx.count(f"zip-in-place:{dname}")
+                else:
+                    b.ingest_zip(z, transfer="copy")
+                    os.remove(z.ospath)
+                    p = os.path.relpath(b.getURI(rr[0]).ospath, absroot)
                 for i, rf in zip(ids, rr):
                     refs[i], content[i], art[i], kind_of[i], run_of[i] = rf, {"n": i}, p, "zip", run
                     live.add(i), registered.add(i)
@@ -351,7 +382,8 @@ def histories(ctx, model_ok, tmp, mode, trust=False):
                 i_ = by_uuid.get(u_)
                 if i_ is not None and art.get(i_) is not None:
                     want_p = art[i_] if kind_of[i_] != "direct" else None
-                    got_p = path_.split("#")[0]
+                    # a zip member is recorded as <artifact>#zip-path=<member>; '#' may also occur in the artifact's own path
+                    got_p = path_[: path_.rfind("#zip-path=")] if "#zip-path=" in path_ else path_
                     if want_p is not None and got_p != want_p:
                         problems.append(f"the record of dataset {i_} names {got_p}, its artifact is {want_p}")
             for p in set(owners) - set(files):
